@@ -8,7 +8,7 @@ Open Scope N_scope.
 (* Whatever instruction failed, at whatever call depth, inside or outside a
    continuation: after the failure the stack pointer, base pointer, environment
    pointer and accumulator are those of a machine that has just completed an
-   evaluation, every stack slot is wiped (no dead frame is a GC root, no later stack
+   evaluation, every stack slot is wiped (the table of slots is empty: all Undefined) (no dead frame is a GC root, no later stack
    trace can list a frame of the failed evaluation), and heap, Rc payloads, globals
    and output log are exactly those at the failing instruction [s0]: the completed
    effects and nothing else.  Hence k consecutive failures leave sp = 0 for every k:
@@ -16,15 +16,15 @@ Open Scope N_scope.
 Theorem C07_failed_exit_canonical : forall ob fuel cyc count s e msg tr s',
   run_loop ob fuel cyc count s = ROk (Failed e msg tr) s' ->
   sp s' = 0 /\ bp s' = 0 /\ ep s' = USIZE_MAX /\ acc s' = VUndef /\
-  Forall (fun v => v = VUndef) (stack s') /\
-  exists s0, length (stack s') = length (stack s0) /\ hp s' = hp s0 /\ st s' = st s0 /\
+  stack s' = tempty /\
+  exists s0, scap s' = scap s0 /\ hp s' = hp s0 /\ st s' = st s0 /\
              g_bind s' = g_bind s0 /\ g_slots s' = g_slots s0 /\ out_log s' = out_log s0.
 Proof. exact failed_exit_canonical. Qed.
 Print Assumptions C07_failed_exit_canonical.
 
 (* a completed evaluation wipes the stack as well *)
 Theorem C07_done_stack_wiped : forall ob fuel cyc count s c s',
-  run_loop ob fuel cyc count s = ROk (Done c) s' -> Forall (fun v => v = VUndef) (stack s').
+  run_loop ob fuel cyc count s = ROk (Done c) s' -> stack s' = tempty.
 Proof. exact done_stack_wiped. Qed.
 Print Assumptions C07_done_stack_wiped.
 
